@@ -1,5 +1,7 @@
 package synthrepo
 
+import "fmt"
+
 // Additions for the C05 harness: raw tar segments as gzip members, so that a
 // served .apk can be assembled from arbitrary members (a control member whose
 // first entry is named .SIGN.*, data split over several members, ...).
@@ -12,3 +14,24 @@ func Segment(entries []File, withEOA bool, pax bool) ([]byte, error) {
 
 // Pkginfo renders the .PKGINFO text of p with the given datahash value.
 func (p *Pkg) Pkginfo(datahash string, size uint64) []byte { return p.pkginfo(datahash, size) }
+
+// RawHeaderLink is RawHeader with a link name (symbolic and hard links).
+func RawHeaderLink(name, linkname string, typeflag byte, mode int64) []byte {
+	b := RawHeader(name, 0, typeflag, mode)
+	copy(b[157:257], linkname)
+	copy(b[148:156], "        ")
+	var sum int64
+	for _, c := range b {
+		sum += int64(c)
+	}
+	copy(b[148:156], fmt.Sprintf("%06o\x00 ", sum))
+	return b
+}
+
+// RawEntryAfter is a header block followed by the content and then, instead of zero
+// padding, the given bytes (cut or zero-filled to the block boundary).
+func RawEntryAfter(name string, content []byte, typeflag byte, after []byte) []byte {
+	body := Pad512(content)
+	copy(body[len(content):], after)
+	return append(RawHeader(name, int64(len(content)), typeflag, 0o644), body...)
+}
